@@ -146,6 +146,11 @@ func genC07Maps(level int) []*MapScen {
 			add(&MapScen{Rel: RelDD, NKeys: 3, Init: []int{1, 1, 0}, Table: TChain2, Cycled: true, Threads: [][]MIn{{opRange}, {on(w, 2)}}})
 		}
 		add(&MapScen{Rel: RelSD, NKeys: 2, Init: []int{0, 1}, Table: TGrowArmed, Cycled: true, Threads: [][]MIn{{opRange}, {on(opStore, 0)}}, ExpectGrow: true})
+		// chains of exactly three and four buckets
+		for _, ch := range []int{3, 4} {
+			add(&MapScen{Rel: RelSD, NKeys: 3, Init: []int{1, 1, 0}, Table: TChain2, Chain: ch, FillFirst: true, Threads: [][]MIn{{opRange}, {on(opDelete, 0), on(opStore, 2)}}})
+			add(&MapScen{Rel: RelSD, NKeys: 3, Init: []int{1, 1, 0}, Table: TChain2, Chain: ch, Threads: [][]MIn{{opRange}, {on(opStore, 2)}}})
+		}
 		// a traversal that spans two table replacements (grow then Clear, Clear then a store, Clear twice)
 		add(&MapScen{Rel: RelSD, NKeys: 2, Init: []int{0, 1}, Table: TGrowArmed, Threads: [][]MIn{{opRange}, {on(opStore, 0), opClear}}, ExpectGrow: true})
 		add(&MapScen{Rel: RelDD, NKeys: 3, Init: []int{1, 1, 0}, Table: TPlain, Threads: [][]MIn{{opRange}, {opClear, on(opStore, 2)}}})
